@@ -31,8 +31,11 @@ RULE = ('Hypothesis-generated tile grids (nice/nasty bbox floats, tile size 16-2
         'against a real TileManager with a ground-function source and a recording cache.  Every stored and served tile is '
         'compared with the ground function on its own bbox, the two settings with each other, and the upstream/store log '
         'with a reference plan.  A case is non-trivial when a buffer is truncated on >= 1 side, the meta size is clipped '
-        'by a small level, a minimal meta tile differs from the regular one, or a requested block contains None; distinct '
-        '= distinct (grid, settings, requests).')
+        'by a small level, a minimal meta tile differs from the regular one, a requested block contains None, the coverage '
+        'of a tiled source leaves part of a bulk meta tile without data, or two requests are interleaved inside '
+        'MetaGrid.meta_tile() (forced two-thread episode on a block straddling two meta tiles); distinct = distinct '
+        '(grid, settings, requests).  Tiled sources carry a bbox / polygon coverage in half of the cases: tiles without '
+        'data upstream must be neither stored nor served, all others must show their own ground.')
 ASSUMPTIONS = [
     'cache format PNG, non-paletted (image.paletted: false; DESIGN section 1), opaque or transparent; JPEG / mixed caches not judged',
     'upstream picture depends on ground position only: F rendered at the pixel centres of the requested rectangle and rounded',
@@ -42,6 +45,9 @@ ASSUMPTIONS = [
     'inside (centre >= 1.5 px from the border) for the 1-px and background clauses; rho = 1.0 px, eps = 3 levels',
     '"no buffer cut off" is decided by the reference grid: rectangle of the stored in-grid tiles +- meta_buffer px lies inside grid.bbox',
     'meta tiles are the blocks of min(meta_size, level grid size) tiles counted from tile index 0 (reference plan for the upstream log)',
+    'a tile has data in a tiled source with coverage iff the coverage intersects the tile shrunk by 1e-6 tile spans; tiles the '
+    'coverage border touches within that margin exclude the case; coverages are not clipping (clip: false)',
+    'race episode: waits are bounded (300 s) and only decide coverage (inconclusive), never a verdict',
     'grids restricted to coordinate magnitude / resolution <= 1e9 and, for tiled sources, to levels that closest_level() can tell apart',
 ]
 
@@ -139,7 +145,7 @@ def settings_(draw, alone_bias=False):
         # "fetched alone": no meta tiling at all
         return {'source': draw(st.sampled_from(['wms', 'tiled'])), 'meta_size': [1, 1], 'meta_buffer': 0,
                 'minimize': False, 'bulk': False, 'creators': draw(st.integers(1, 3)), 'locker': 'dummy'}
-    source = draw(st.sampled_from(['wms', 'wms', 'wms', 'tiled']))
+    source = draw(st.sampled_from(['wms', 'wms', 'tiled']))
     s = {'source': source,
          'meta_size': [draw(st.integers(1, 4)), draw(st.integers(1, 4))],
          'meta_buffer': draw(st.one_of(st.sampled_from([0, 0, 1, 2, 3, 5, 8, 10, 16, 20, 40, 80, 100]), st.integers(0, 100))),
@@ -149,6 +155,15 @@ def settings_(draw, alone_bias=False):
          'locker': draw(st.sampled_from(['dummy', 'dummy', 'dummy', 'file']))}
     if source == 'tiled':
         s['bulk'] = draw(st.sampled_from([True, True, True, False]))
+        if draw(st.integers(0, 2)) > 0:
+            # source coverage (bbox or polygon) placed in tile units relative to the first request's anchor tile, so that
+            # its border runs through the requested meta tiles: some tiles of a meta tile have no data upstream
+            s['coverage'] = {'shape': draw(st.sampled_from(['bbox', 'bbox', 'diamond', 'triangle'])),
+                             # (fractions chosen so that no edge of the rectangle falls on a tile edge)
+                             'dx': draw(st.sampled_from([-2.3, -1.4, -0.3, -0.3, 0.3, 0.3, 0.6, 1.3])),
+                             'dy': draw(st.sampled_from([-2.3, -1.4, -0.3, -0.3, 0.3, 0.3, 0.6, 1.3])),
+                             'w': draw(st.sampled_from([0.45, 0.45, 1.2, 1.45, 2.2, 2.45, 3.8])),
+                             'h': draw(st.sampled_from([0.45, 0.45, 1.2, 1.45, 2.2, 2.45, 3.8]))}
     return s
 
 
@@ -171,6 +186,17 @@ def requests_(draw):
 
 @st.composite
 def cases(draw):
+    case = draw(cases_base())
+    # forced two-thread interleaving on setting 0 (see race_episode); applied when the setting allows it
+    if draw(st.integers(0, 3)) == 0:
+        case['race'] = {'ax': draw(ANCHOR), 'ay': draw(ANCHOR), 'h': draw(st.sampled_from([0.5, 0.5, 1.5]))}
+    else:
+        case['race'] = None
+    return case
+
+
+@st.composite
+def cases_base(draw):
     return {'grid': draw(grid_defs()),
             'transparent': draw(st.sampled_from([False, False, True])),
             'period_px': draw(st.sampled_from([48.0, 64.0, 96.0])),
@@ -213,6 +239,9 @@ def _encode_png(arr, transparent):
     return buf
 
 
+UPSTREAM_REFUSAL = 'C04-UPSTREAM-REFUSAL'
+
+
 class FakeWMSClient(object):
     """Stands in for mapproxy.client.wms.WMSClient: retrieve(query, format) -> response buffer."""
 
@@ -225,6 +254,11 @@ class FakeWMSClient(object):
         bbox = tuple(float(v) for v in query.bbox)
         size = (int(query.size[0]), int(query.size[1]))
         self.log.add(('get', threading.get_ident(), bbox, size))
+        if size[0] < 1 or size[1] < 1 or not (bbox[0] < bbox[2] and bbox[1] < bbox[3]):
+            # what a WMS server does with such a request: it refuses it (the request is the verdict's business,
+            # not a harness problem - see raised_in_harness)
+            from mapproxy.client.http import HTTPClientError
+            raise HTTPClientError('%s: the upstream refuses a map request of size %r for bbox %r' % (UPSTREAM_REFUSAL, size, bbox))
         arr = self.ground.render_array(bbox, size, self.ground.srs)
         return _encode_png(arr, self.transparent)
 
@@ -316,7 +350,7 @@ def make_cache_class():
     return RecordingCache
 
 
-def build_manager(grid, ref, setting, ground, transparent, log, lock_dir):
+def build_manager(grid, ref, setting, ground, transparent, log, lock_dir, coverage=None):
     """Mirror of CacheConfiguration.caches(): same constructor arguments, same option values."""
     from functools import partial
     from mapproxy.cache.tile import TileManager, TileCreator
@@ -331,7 +365,7 @@ def build_manager(grid, ref, setting, ground, transparent, log, lock_dir):
         source = WMSSource(FakeWMSClient(ground, log, transparent), image_opts=src_opts)
     else:
         src_opts = ImageOptions(resampling='bicubic', transparent=True if transparent else None)
-        source = TiledSource(grid, FakeTileClient(ground, log, ref, transparent), image_opts=src_opts)
+        source = TiledSource(grid, FakeTileClient(ground, log, ref, transparent), image_opts=src_opts, coverage=coverage)
     base = ImageOptions(format='image/png', resampling='bicubic', colors=0, transparent=True if transparent else None)
     image_opts = compatible_image_options([src_opts], base_opts=base)
     cache = make_cache_class()(log, image_opts)
@@ -352,6 +386,8 @@ def build_manager(grid, ref, setting, ground, transparent, log, lock_dir):
 def raised_in_harness(exc):
     """True if the deepest traceback frame that belongs to either the harness or MapProxy is harness code
     (a bug or resource problem of the synthetic client / recording cache is a harness error, never a verdict)."""
+    if UPSTREAM_REFUSAL in str(exc):
+        return False
     tb = exc.__traceback__
     owner = 'harness'
     while tb is not None:
@@ -398,14 +434,64 @@ def block_tiles(ref, z, bx, by, m):
                      for y in range(by * m[1], min((by + 1) * m[1], gy)))
 
 
-def plan_request(ref, setting, coords, cached):
-    """-> list of units {'tiles': frozenset, 'gets': int, 'kind': str} expected for one load_tile_coords call."""
+class Ambiguous(Exception):
+    """a tile touches the border of the source coverage within the float margin: the case is not judged"""
+
+
+class SourceCoverage(object):
+    """Coverage of a tiled source: the MapProxy object handed to TiledSource plus the reference answer to
+    'does the source have data for this tile' (shapely, with a margin that keeps float noise out of the verdict)."""
+
+    def __init__(self, ref, z, anchor, spec):
+        import shapely.geometry as sg
+        from mapproxy.srs import SRS
+        from mapproxy.util.coverage import coverage
+        sx, sy = ref.span(z)
+        ar = ref.tile_rect(anchor[0], anchor[1], z)     # placed relative to the anchor tile (ll and ul grids alike)
+        x0 = float(ar[0] + sx * Fr(spec['dx']))
+        y0 = float(ar[1] + sy * Fr(spec['dy']))
+        x1 = float(Fr(x0) + sx * Fr(spec['w']))
+        y1 = float(Fr(y0) + sy * Fr(spec['h']))
+        self.ref = ref
+        self.margin = 1e-6 * float(min(sx, sy))
+        if spec['shape'] == 'bbox':
+            self.geom = sg.box(x0, y0, x1, y1)
+            self.mp = coverage([x0, y0, x1, y1], SRS('EPSG:3857'))
+        else:
+            if spec['shape'] == 'diamond':
+                pts = [((x0 + x1) / 2, y0), (x1, (y0 + y1) / 2), ((x0 + x1) / 2, y1), (x0, (y0 + y1) / 2)]
+            else:
+                pts = [(x0, y0), (x1, y0), (x0, y1)]
+            self.geom = sg.Polygon(pts)
+            self.mp = coverage(sg.Polygon(pts), SRS('EPSG:3857'))
+        self._memo = {}
+
+    def has_data(self, coord):
+        import shapely.geometry as sg
+        v = self._memo.get(coord)
+        if v is None:
+            r = [float(t) for t in self.ref.tile_rect(*coord)]
+            m = self.margin
+            if self.geom.intersects(sg.box(r[0] + m, r[1] + m, r[2] - m, r[3] - m)):
+                v = 'yes'
+            elif not self.geom.intersects(sg.box(r[0] - m, r[1] - m, r[2] + m, r[3] + m)):
+                v = 'no'
+            else:
+                raise Ambiguous()
+            self._memo[coord] = v
+        return v == 'yes'
+
+
+def plan_request(ref, setting, coords, cached, cov=None):
+    """-> list of units {'tiles': frozenset, 'gets': int, 'kind': str} expected for one load_tile_coords call.
+    `cov` (SourceCoverage or None): tiles without data upstream are neither requested from the client nor stored."""
     mode = effective_mode(setting)
     uncached = [c for c in coords if c is not None and c not in cached]
     if not uncached:
         return []
     if mode == 'single':
-        return [{'tiles': frozenset([c]), 'gets': 1, 'kind': 'single'} for c in uncached]
+        return [{'tiles': frozenset([c]), 'gets': 1, 'kind': 'single', 'z': c[2]} for c in uncached
+                if cov is None or cov.has_data(c)]
     z = uncached[0][2]
     gx, gy = ref.grid_sizes[z]
     m = (min(setting['meta_size'][0], gx), min(setting['meta_size'][1], gy))
@@ -413,7 +499,7 @@ def plan_request(ref, setting, coords, cached):
         xs = [c[0] for c in uncached]
         ys = [c[1] for c in uncached]
         tiles = frozenset((x, y, z) for x in range(min(xs), max(xs) + 1) for y in range(min(ys), max(ys) + 1))
-        return [{'tiles': tiles, 'gets': 1, 'kind': 'minimal'}]
+        return [{'tiles': tiles, 'gets': 1, 'kind': 'minimal', 'z': z}]
     units = []
     seen = set()
     for c in uncached:
@@ -422,8 +508,13 @@ def plan_request(ref, setting, coords, cached):
             continue
         seen.add(b)
         tiles = block_tiles(ref, z, b[0], b[1], m)
+        partly = False
+        if mode == 'bulk' and cov is not None:
+            have = frozenset(t for t in tiles if cov.has_data(t))
+            partly = bool(have) and have != tiles
+            tiles = have
         units.append({'tiles': tiles, 'gets': len(tiles) if mode == 'bulk' else 1,
-                      'kind': 'bulk' if mode == 'bulk' else 'regular'})
+                      'kind': 'bulk' if mode == 'bulk' else 'regular', 'z': z, 'partly-covered': partly})
     return units
 
 
@@ -609,6 +700,15 @@ def sig(*parts):
     return 'C04/' + '/'.join(parts)
 
 
+def anchor_index(a, n):
+    how, v = a
+    if how == 'lo':
+        return min(int(v), n - 1)
+    if how == 'hi':
+        return max(n - 1 - int(v), 0)
+    return min(int(float(v) * n), n - 1)
+
+
 def resolve_requests(grid, ref, reqs, lp, st_):
     """request descriptions -> list of (kind, [coords incl. None]) (the same for every setting)"""
     from mapproxy.grid import GridError, NoTiles
@@ -616,15 +716,7 @@ def resolve_requests(grid, ref, reqs, lp, st_):
     z = max(0, grid.levels - 1 - lp)
     for r in reqs:
         gx, gy = ref.grid_sizes[z]
-
-        def idx(a, n):
-            how, v = a
-            if how == 'lo':
-                return min(int(v), n - 1)
-            if how == 'hi':
-                return max(n - 1 - int(v), 0)
-            return min(int(float(v) * n), n - 1)
-        ix, iy = idx(r['ax'], gx), idx(r['ay'], gy)
+        ix, iy = anchor_index(r['ax'], gx), anchor_index(r['ay'], gy)
         if r['kind'] == 'tile':
             out.append(('tile', [(ix, iy, z)]))
             continue
@@ -664,7 +756,132 @@ class Run(object):
         self.violation = None
 
 
-def run_setting(grid, ref, setting, ground, transparent, resolved, judge, case, si, st_):
+RACE_WAIT = 300.0
+
+
+def race_episode(grid, ref, setting, mgr, cache, log, case, z, run, cached, fail, st_):
+    """Forced interleaving of two requests on one TileManager (shared MetaGrid): request T1 asks for a tile block
+    that straddles the border between two meta tiles A | B and is suspended once inside MetaGrid.meta_tile() (at its
+    first grid.tile_bbox call there, through a wrapper on this grid instance only); meanwhile request T2 asks for
+    T1's second tile (which lies in B) and runs to completion; then T1 resumes.  Both must end with every requested
+    tile served with the image that is in the cache; the stored images go through the pixel oracle with the others.
+    The waits are bounded (RACE_WAIT); running into a bound is counted as inconclusive, never judged.
+    Returns None (nothing wrong / not applicable) or the Run with a violation."""
+    import sys
+    from mapproxy.grid import GridError, NoTiles
+    spec = case['race']
+    gx, gy = ref.grid_sizes[z]
+    m = (min(setting['meta_size'][0], gx), min(setting['meta_size'][1], gy))
+    if gx <= m[0]:
+        st_.notes['race:level-has-one-meta-column'] += 1
+        return None
+    ix, iy = anchor_index(spec['ax'], gx), anchor_index(spec['ay'], gy)
+    col = max(1, ix // m[0]) * m[0]          # first column of a meta tile; col - 1 belongs to its western neighbour
+    sx, sy = ref.span(z)
+    x0 = ref.bbox[0] + sx * (Fr(col) - Fr(3, 4))
+    x1 = x0 + sx * Fr(3, 2)
+    y0 = ref.bbox[1] + sy * (Fr(iy) + Fr(1, 4))
+    y1 = y0 + sy * Fr(spec['h'])
+    bbox = (float(x0), float(y0), float(x1), float(y1))
+    size = (max(1, int(round(float((x1 - x0) / ref.res[z])))), max(1, int(round(float((y1 - y0) / ref.res[z])))))
+    try:
+        _, (nx, ny), it = grid.get_affected_tiles(bbox, size)
+        coords = list(it) if nx * ny <= MAX_BLOCK else []
+    except (NoTiles, GridError):
+        coords = []
+    want = [c for c in coords if c is not None]
+    if len(want) < 2 or any(c[2] != z for c in want) or \
+            (want[0][0] // m[0], want[0][1] // m[1]) == (want[1][0] // m[0], want[1][1] // m[1]):
+        st_.notes['race:block-does-not-straddle'] += 1
+        return None
+
+    t1_in, t1_go = threading.Event(), threading.Event()
+    state = {'t1': None, 'done': False}
+    orig = grid.tile_bbox
+
+    def hooked(tile_coord, limit=False):
+        if not state['done'] and threading.current_thread() is state['t1']:
+            f, depth = sys._getframe(1), 0
+            while f is not None and depth < 8:
+                if f.f_code.co_name == 'meta_tile':
+                    state['done'] = True
+                    t1_in.set()
+                    t1_go.wait(RACE_WAIT)
+                    break
+                f, depth = f.f_back, depth + 1
+        return orig(tile_coord, limit)
+
+    res = {}
+
+    def worker(name, fn):
+        try:
+            with mgr.session():
+                res[name] = ('ok', fn())
+        except Exception as e:
+            res[name] = ('exc', e)
+
+    t1 = threading.Thread(target=worker, args=('T1', lambda: list(mgr.load_tile_coords(list(coords)))), daemon=True)
+    t2 = threading.Thread(target=worker, args=('T2', lambda: [mgr.load_tile_coord(want[1])]), daemon=True)
+    state['t1'] = t1
+    grid.tile_bbox = hooked
+    try:
+        t1.start()
+        reached = t1_in.wait(RACE_WAIT)
+        if reached:
+            t2.start()
+            t2.join(RACE_WAIT)
+        t1_go.set()
+        t1.join(RACE_WAIT)
+        if reached:
+            t2.join(RACE_WAIT)
+        if t1.is_alive() or t2.is_alive():
+            raise core.HarnessError('race episode: request thread did not finish')
+    finally:
+        t1_go.set()
+        del grid.tile_bbox
+        join_workers()
+    if not reached:
+        st_.inconclusive['race:suspension-point-not-reached'] += 1
+    else:
+        run.facts.add('race-episode')
+    events = log.cut()
+    for name, req in (('T1', coords), ('T2', [want[1]])):
+        if name not in res:
+            continue
+        kind, val = res[name]
+        if kind == 'exc':
+            if raised_in_harness(val):
+                raise val
+            return fail('race/exception/' + type(val).__name__, 'interleaved request %s for %r raised %s: %s'
+                        % (name, req[:4], type(val).__name__, val))
+        for c, t in zip(req, val):
+            if c is None:
+                continue
+            if t.coord != c or t.source is None:
+                return fail('race/served-missing', 'interleaved request %s (T1 asks for %r and is suspended in meta_tile() '
+                            'while T2 creates %r): requested tile %r is served without image'
+                            % (name, want[:4], want[1], c))
+            buf = t.source.as_buffer(mgr.image_opts, seekable=True)
+            buf.seek(0)
+            sbytes, cbytes = buf.read(), cache.data.get(c)
+            if sbytes != cbytes:
+                a, _ = decode_rgba(sbytes)
+                b = decode_rgba(cbytes)[0] if cbytes else None
+                if b is None or a.shape != b.shape or not (a == b).all():
+                    return fail('race/served-differs-from-stored', 'interleaved request %s: tile %r served differs from '
+                                'the stored image' % (name, c))
+    for e in events:
+        if e[0] != 'store' or not e[2]:
+            continue
+        got = frozenset(c for c, _ in e[2])
+        trunc = truncation(ref, got, setting['meta_buffer'])
+        for c, data in e[2]:
+            run.stored.setdefault(c, []).append((data, not trunc, trunc, 'regular'))
+        cached |= got
+    return None
+
+
+def run_setting(grid, ref, setting, ground, transparent, resolved, judge, case, si, st_, z=0):
     import logging
     lg = logging.getLogger('mapproxy')
     if not any(isinstance(h, logging.NullHandler) for h in lg.handlers):
@@ -680,10 +897,20 @@ def run_setting(grid, ref, setting, ground, transparent, resolved, judge, case, 
         return run
 
     try:
-        mgr, cache = build_manager(grid, ref, setting, ground, transparent, log, lock_dir)
+        cov = None
+        if setting['source'] == 'tiled' and setting.get('coverage'):
+            gx, gy = ref.grid_sizes[z]
+            r0 = case['requests'][0]
+            cov = SourceCoverage(ref, z, (anchor_index(r0['ax'], gx), anchor_index(r0['ay'], gy)), setting['coverage'])
+            run.facts.add('source-coverage:' + setting['coverage']['shape'])
+        mgr, cache = build_manager(grid, ref, setting, ground, transparent, log, lock_dir,
+                                   coverage=cov.mp if cov else None)
         cached = set()
+        if si == 0 and case.get('race') and mode == 'meta' and not setting['minimize']:
+            if race_episode(grid, ref, setting, mgr, cache, log, case, z, run, cached, fail, st_) is not None:
+                return run
         for ri, (kind, coords) in enumerate(resolved):
-            units = plan_request(ref, setting, coords, cached)
+            units = plan_request(ref, setting, coords, cached, cov)
             try:
                 with mgr.session():
                     if kind == 'tile':
@@ -743,7 +970,9 @@ def run_setting(grid, ref, setting, ground, transparent, resolved, judge, case, 
                     run.stored.setdefault(c, []).append((data, exact, trunc, u['kind']))
                 cached |= u['tiles']
                 # facts for the non-trivial rule
-                z = next(iter(u['tiles']))[2]
+                uz = u['z']
+                if u.get('partly-covered'):
+                    run.facts.add('bulk-meta-tile-partly-covered')
                 if trunc:
                     run.facts.add('truncated')
                     run.facts.add('truncated-sides:%d' % len(trunc))
@@ -753,14 +982,14 @@ def run_setting(grid, ref, setting, ground, transparent, resolved, judge, case, 
                     run.facts.add('exact-with-buffer:' + u['kind'])
                 elif mode == 'meta' and len(u['tiles']) > 1:
                     run.facts.add('exact-without-buffer:' + u['kind'])
-                if mode != 'single' and (setting['meta_size'][0] > ref.grid_sizes[z][0] or
-                                         setting['meta_size'][1] > ref.grid_sizes[z][1]):
+                if mode != 'single' and (setting['meta_size'][0] > ref.grid_sizes[uz][0] or
+                                         setting['meta_size'][1] > ref.grid_sizes[uz][1]):
                     run.facts.add('meta-size-clipped')
                 if u['kind'] == 'minimal':
-                    gx, gy = ref.grid_sizes[z]
+                    gx, gy = ref.grid_sizes[uz]
                     m = (min(setting['meta_size'][0], gx), min(setting['meta_size'][1], gy))
                     c0 = min(u['tiles'])
-                    if u['tiles'] != block_tiles(ref, z, c0[0] // m[0], c0[1] // m[1], m):
+                    if u['tiles'] != block_tiles(ref, uz, c0[0] // m[0], c0[1] // m[1], m):
                         run.facts.add('minimal-differs')
                 run.facts.add('unit:' + u['kind'])
                 run.facts.add('exact' if exact else 'within-1px')
@@ -775,6 +1004,12 @@ def run_setting(grid, ref, setting, ground, transparent, resolved, judge, case, 
                 if c is None:
                     if t.source is not None:
                         return fail('served-for-none', 'request %d: a None entry was served an image' % ri)
+                    continue
+                if cov is not None and not cov.has_data(c):
+                    run.facts.add('requested-tile-without-data')
+                    if t.source is not None or c in cache.data:
+                        return fail('image-for-tile-without-data', 'request %d: the source coverage has no data for tile %r, '
+                                    'but an image is %s for it' % (ri, c, 'served' if t.source is not None else 'stored'))
                     continue
                 if t.coord != c or t.source is None:
                     return fail('served-missing', 'request %d: requested tile %r served as %r without image' % (ri, c, t.coord))
@@ -855,7 +1090,11 @@ def check_case(case, st_, exclude_known=True):
     runs = []
     violation = None
     for si, setting in enumerate(case['settings']):
-        run = run_setting(grid, ref, setting, ground, case['transparent'], resolved, judge, case, si, st_)
+        try:
+            run = run_setting(grid, ref, setting, ground, case['transparent'], resolved, judge, case, si, st_, z=z0)
+        except Ambiguous:
+            st_.excluded['tile-on-source-coverage-border'] += 1
+            return None
         runs.append(run)
         if run.violation is not None:
             violation = run.violation
@@ -899,7 +1138,8 @@ def check_case(case, st_, exclude_known=True):
         facts |= r.facts
     if any(c is None for _, coords in resolved for c in coords):
         facts.add('block-with-none')
-    nt = facts & {'truncated', 'meta-size-clipped', 'minimal-differs', 'block-with-none'}
+    nt = facts & {'truncated', 'meta-size-clipped', 'minimal-differs', 'block-with-none', 'bulk-meta-tile-partly-covered',
+                  'race-episode'}
     classes = ['fact:' + f for f in sorted(facts)]
     classes += ['mode:' + effective_mode(s) for s in case['settings']]
     classes += ['origin:' + case['grid']['origin'], 'transparent:%s' % case['transparent']]
